@@ -176,6 +176,10 @@ def r2(fx):
         ('symbol_count 0', dict(symbol_count=0), 'raises ValueError'),
         ('symbol_count 17', dict(symbol_count=17), 'raises ValueError'),
         ('symbol_count -1', dict(symbol_count=-1), 'raises ValueError'),
+        ('symbol_count 0 with version 1', dict(symbol_count=0, version=1), 'raises ValueError'),
+        ('symbol_count 17 with version 1', dict(symbol_count=17, version=1), 'raises ValueError'),
+        ('symbol_count 17 with version 40', dict(symbol_count=17, version='40'), 'raises ValueError'),
+        ('symbol_count -3 with version 5', dict(symbol_count=-3, version=5), 'raises ValueError'),
     ]
     for name, kw, want in cases:
         res, rec = _run(fx, it, CONTENT, 'byte', 'iso-8859-1', fit_single=None, **kw)
